@@ -71,6 +71,15 @@ def check_write(ctx):
         ctx.check(e.get("use") in ("assign", "init", "ret", "cond"), "T4-wal-sync-status", "sync-result",
                   f.name, site(f, e), "the sync status is kept (%s)" % e.get("use"),
                   "the status of the log sync is discarded")
+    # the queued writer advertises the caller's sync wish (read by the group builder of *another* thread)
+    ws = [(b, i, e) for (b, i, e) in f.events("asg") if key(e["lhs"]) == "w.sync"]
+    ctx.check(len(ws) == 1 and key(ws[0][2]["rhs"]) == "options->sync", "T6-waiter-sync-flag", "w.sync", f.name, f.loc,
+              "the queued writer carries options->sync", "w.sync is set from %s" % [key(x[2]["rhs"]) for x in ws])
+    if ws:
+        always_before(ctx, "T6-waiter-sync-flag", "set<enqueue", f,
+                      lambda e: e["e"] == "asg" and key(e["lhs"]) == "w.sync",
+                      lambda e: is_call(e, "ldb_queue_push"),
+                      "the sync wish is recorded before the writer becomes visible in the queue")
     # the flag that decides the sync is the caller's option, unchanged
     opt_stores = [x for x in f.events("asg") if key(x[2]["lhs"]).startswith("options->")]
     ctx.check(not opt_stores, "T2-wal-sync-flag", "options-const", f.name, f.loc,
@@ -198,7 +207,7 @@ def check_tables(ctx):
     af = one_call(ctx, w0, "ldb_edit_add_file")[0]
     call_ok_dominates(ctx, "T2-edit-after-table", "level0", w0, af, "ldb_build_table",
                       "recording the level-0 table in the edit")
-    check_guard(ctx, "T2-edit-after-table", "level0:nonempty", w0, af, [[(">", "meta.file_size", "0")]],
+    check_guard(ctx, "T2-edit-after-table", "level0:nonempty", w0, af, [[("!=", "meta.file_size", "0")]],
                 "recording the level-0 table")
     cm = ctx.fn("ldb_compact_memtable", DB)
     ap = one_call(ctx, cm, "ldb_versions_apply")[0]
